@@ -22,6 +22,7 @@ import gen
 import mockca
 import vlib
 from ext import accountmulti
+from ext import c12bb
 from ext import contactsfp
 
 FINISH = dict(
@@ -58,7 +59,10 @@ FINISH = dict(
          "newAccount, endless accountDoesNotExist) on the re-registration path followed by another attempt; a keyChange "
          "/ contact update the CA processes whose answer is lost, then further renewals and a restart (one and two "
          "endpoints, with a contact edit): every renewal of those histories judged by Spec.C11Lost.holds (c11_judge_lost; "
-         "`pending` = the previous renewal on that endpoint left a keyChange request unanswered). non-trivial "
+         "`pending` = the previous renewal on that endpoint left a keyChange request unanswered). Step renew_all (layouts "
+         "2c2e / 3c3e, catalogue + random): every certificate due in ONE daemon start, the CAs holding their newAccount "
+         "answer until each has received one (at most 1 s) and delaying every answer by a seeded 0..25 ms, then a restart "
+         "and all due again; each endpoint judged like a renewal of its own, the restart by holdsRestart. non-trivial "
          "(A) = at least one endpoint or superseded key; (B) = a renewal preceded by an edit or amnesia. "
          "M (py/ext/accountmulti.py): one account with 2..3 endpoints (one mock CA each) held in one probe process; "
          "histories (catalogue + random, 3..8 steps) of edits / restarts / amnesia / synchronisations of one named "
@@ -572,8 +576,12 @@ def unreadable_cases(ctx, root, target, n_flips):
 # ------------------------------------------------------------------------------------------------
 # part B: histories against the real daemon
 
-LAYOUTS = {"1c1e": [("c1", "epA")], "2c2e": [("c1", "epA"), ("c2", "epB")], "2c1e": [("c1", "epA"), ("c2", "epA")]}
-IDS = {"c1": "one.example.org", "c2": "two.example.org"}
+LAYOUTS = {"1c1e": [("c1", "epA")], "2c2e": [("c1", "epA"), ("c2", "epB")], "2c1e": [("c1", "epA"), ("c2", "epA")],
+           "3c3e": [("c1", "epA"), ("c2", "epB"), ("c3", "epC")]}
+IDS = {"c1": "one.example.org", "c2": "two.example.org", "c3": "three.example.org"}
+# step `renew_all`: EVERY certificate of the layout is due in ONE daemon start (one account, each certificate on its own
+# endpoint: the synchronisations of the endpoints overlap); each endpoint is then judged like a renewal of its own
+ALL_DUE = ("2c2e", "3c3e")
 B_CONTACTS = [["a@example.org"], ["b@example.org"], ["a@example.org", "c@example.org"], ["ü@exämple.org"], [],
               ["d@example.org", "a@example.org"]]
 ACC = "acc1"
@@ -603,6 +611,8 @@ def gen_history(rng, max_len, key_pool):
                                "keyspell", "alg", "layout"])
         if kind == "layout" and layout != "2c2e":
             kind = "renew"
+        if kind == "renew" and now in ALL_DUE and rng.random() < 0.3:
+            kind = "renew_all"
         if kind == "contacts":
             cur["contacts"] = other_of(cur["contacts"], B_CONTACTS, rng)
             steps.append({"do": "contacts", "value": cur["contacts"]})
@@ -639,6 +649,8 @@ def gen_history(rng, max_len, key_pool):
             steps.append({"do": "restart"})
         elif kind == "forget":
             steps.append({"do": "forget", "ep": rng.choice(eps)})
+        elif kind == "renew_all":
+            steps.append({"do": "renew_all"})
         else:
             steps.append({"do": "renew", "cert": rng.choice(certs)})
     h = {"layout": layout, "init": init, "steps": steps}
@@ -701,6 +713,21 @@ def catalogue(thorough):
         ("eab-alg-only", "1c1e", dict(i0, eab=e1), [R1, {"do": "eab", "value": e1b}, R1]),
         ("eab+key+contacts", "1c1e", dict(i0, eab=e1), [R1, {"do": "eab", "value": e2}, {"do": "both", "contacts": b, "key": "ecdsa_p384"}, R1]),
     ]
+    # all certificates due in one start (first registration on every endpoint at the same time), a restart on the
+    # file that start left, all due again: no endpoint registers twice; the same with a contact / key change that
+    # every endpoint has to carry out in the same start, and with one endpoint registered beforehand
+    RA = {"do": "renew_all"}
+    H += [
+        ("all-due-at-once", "2c2e", i0, [RA, RS, RA]),
+        ("all-due-at-once-three-endpoints", "3c3e", i0, [RA, RS, RA]),
+        ("all-due-at-once+contacts", "2c2e", i0, [RA, {"do": "contacts", "value": b}, RA, RS, RA]),
+    ]
+    if thorough:
+        H += [
+            ("one-registered-then-all-due", "2c2e", i0, [R1, RA, RS, RA]),
+            ("all-due-at-once+key", "3c3e", i0, [RA, {"do": "key", "value": "ecdsa_p384"}, RA, RS, RA]),
+            ("all-due-at-once-forgotten-by-one", "2c2e", i0, [RA, {"do": "forget", "ep": "epB"}, RA, RS, RA]),
+        ]
     # two contact lists whose "mailto:"+value strings concatenate to the same text are still different lists
     H += [("contacts-same-concatenation", "1c1e", dict(i0, contacts=["a@example.org", "c@example.org"]),
            [R1, {"do": "contacts", "value": ["a@example.orgmailto:c@example.org"]}, R1])]
@@ -805,7 +832,7 @@ class Run:
         os.makedirs(os.path.join(self.root, "certs"), exist_ok=True)
         for c, _ in self.layout:
             crt, key = flow.cert_paths(self.root, c)
-            if c == renew:
+            if c == renew or renew == "*":
                 if os.path.exists(crt):
                     os.remove(crt)
             elif not (os.path.exists(crt) and os.path.exists(key)):
@@ -903,7 +930,30 @@ class Run:
         rc = d.stop()
         return rc, d.stderr()
 
-    def renew(self, idx, cert, rules=None):
+    def renew_all(self, idx):
+        """Every certificate of the layout is due in this daemon start.  The CAs hold their newAccount answers until
+        each of them has received one (c12bb.Meeting; at most a second) and delay every answer by a seeded 0..25 ms."""
+        if len(set(e for _, e in self.layout)) != len(self.layout):
+            self.errors.append("renew_all with two certificates on one endpoint (layout %s)" % (self.layout,))
+            return False
+        self.write_cfg()
+        self.place_certs(renew="*")
+        pre, _ = self.fetch()
+        self.note_start(pre)
+        sh = {"pre": pre, "marks": {e: len(c.log) for e, c in self.cas.items()}, "n0": len(flow.post_ops(self.log))}
+        self.meeting.begin(e for _, e in self.layout)
+        try:
+            sh["rc"], sh["err"] = self.run_daemon(lambda d: len(flow.post_ops(self.log)) >= sh["n0"] + len(self.layout),
+                                                  self.tmo, min_idle=60)
+        finally:
+            self.meeting.end()
+        sh["post"], sh["raw"] = self.fetch()
+        ok = True
+        for cert, _ in self.layout:
+            ok = self.renew(idx, cert, shared=sh) and ok
+        return ok
+
+    def renew(self, idx, cert, rules=None, shared=None):
         ep = dict(self.layout)[cert]
         ca = self.cas[ep]
         # scripted faults of this renewal's CA: {"kind", "times", "problem": [status, type]} | {..., "drop": true}
@@ -911,18 +961,26 @@ class Run:
         for r in rules or []:
             ans = ca.problem(*r["problem"]) if "problem" in r else {k: r[k] for k in ("process", "drop") if k in r}
             ca.rules.append({"kind": r["kind"], "times": r.get("times", 1), "label": "fault:" + r["kind"], "answer": ans})
-        self.write_cfg()
-        self.place_certs(renew=cert)
-        pre, _ = self.fetch()
-        self.note_start(pre)
-        marks = {e: len(c.log) for e, c in self.cas.items()}
+        if shared is None:
+            self.write_cfg()
+            self.place_certs(renew=cert)
+            pre, _ = self.fetch()
+            self.note_start(pre)
+        else:
+            pre = shared["pre"]
+        marks = shared["marks"] if shared else {e: len(c.log) for e, c in self.cas.items()}
         tables = {e: json.dumps(c.accounts, sort_keys=True, default=str) for e, c in self.cas.items()}
-        n0 = len(flow.post_ops(self.log))
-        rc, err = self.run_daemon(lambda d: len(flow.post_ops(self.log)) > n0, self.tmo, min_idle=60)
+        n0 = shared["n0"] if shared else len(flow.post_ops(self.log))
+        rc, err = (shared["rc"], shared["err"]) if shared else \
+            self.run_daemon(lambda d: len(flow.post_ops(self.log)) > n0, self.tmo, min_idle=60)
         fired = [e.get("rule") for e in ca.log[marks[ep]:] if e.get("rule")]
         ca.rules[:] = []
-        post, raw = self.fetch()
+        post, raw = (shared["post"], shared["raw"]) if shared else self.fetch()
         pops = flow.post_ops(self.log)[n0:]
+        if shared:       # the record of THIS certificate's attempt (the other endpoints' CAs were busy too: no clause on them)
+            pops = [p for p in pops if IDS[cert] in str(flow.hook_args(p).get("identifiers"))]
+            marks = {e: len(c.log) for e, c in self.cas.items() if e != ep}
+            marks[ep] = shared["marks"][ep]
         crt, _ = flow.cert_paths(self.root, cert)
         success = bool(pops) and flow.hook_args(pops[0]).get("is_success") == "true" and os.path.exists(crt)
         status = flow.hook_args(pops[0]).get("status") if pops else "no post-operation record (rc=%s)" % rc
@@ -1004,7 +1062,7 @@ class Run:
                               "binding (every renewal would re-register)" % ep)
         if success and self.cfg["eab"] and any(r["kind"] == "newAccount" and not r["eab"] for r in reqs):
             py.append("newAccount without the configured external account binding")
-        nontrivial = self.edited
+        nontrivial = self.edited or bool(shared)
         for r in reqs:
             if r["kind"] == "newAccount" and r["answer"] == "ok" and eab_id is not None:
                 self.bound[ep] = eab_id
@@ -1090,8 +1148,11 @@ class Run:
         try:
             for e in self.eps:
                 ca = mockca.MockCA(self.helper, opts=self.h.get("ca_opts"))
+                if any(st["do"] == "renew_all" for st in self.h["steps"]):
+                    c12bb.seeded_delays(ca, len(self.h["steps"]) * 100 + len(self.cas), 25)
                 ca.start()
                 self.cas[e] = ca
+            self.meeting = c12bb.Meeting(self.cas)
             os.makedirs(self.root, exist_ok=True)
             for i, st in enumerate(self.h["steps"]):
                 do = st["do"]
@@ -1123,6 +1184,8 @@ class Run:
                     self.edited = True
                 elif do == "restart":
                     ok = self.restart(i)
+                elif do == "renew_all":
+                    ok = self.renew_all(i)
                 elif do == "renew":
                     ok = self.renew(i, st["cert"], st.get("rules"))
                 if not ok:
